@@ -1,0 +1,14 @@
+//go:build verif
+
+package wamp
+
+// VerifSetNext positions the generator so that the next call to Next returns
+// n+1 (or 1 after the wrap). Verification hook; only built with -tags verif.
+func (g *IDGen) VerifSetNext(n uint64) { g.next = n }
+
+// VerifSetNext positions the generator under its lock.
+func (g *SyncIDGen) VerifSetNext(n uint64) {
+	g.lock.Lock()
+	g.IDGen.next = n
+	g.lock.Unlock()
+}
